@@ -290,7 +290,7 @@ def gen(draw):
             except tx.RefFail:
                 failed = True
                 cur = None
-    return {'target': trec, 'steps': steps}
+    return {'target': trec, 'steps': steps, 'twin_first': draw(st.sampled_from([False, False, True]))}
 
 
 PAE_KINDS = {
@@ -336,8 +336,43 @@ def equalish(a, b):
     return a == b
 
 
+def twin_lit(r):
+    """a literal that is == to r but of another type (1 <-> 1.0, True -> 1), or r itself"""
+    if r[0] == 'i':
+        return ['f', float(r[1])]
+    if r[0] == 'f' and r[1] == r[1] and abs(r[1]) < 1e9 and float(r[1]).is_integer():
+        return ['i', int(r[1])]
+    if r[0] == 'b':
+        return ['i', int(r[1])]
+    if r[0] == 'tuple':
+        return ['tuple', [twin_lit(x) for x in r[1]]]
+    return r
+
+
+def twin_steps(steps):
+    out = []
+    for s_ in steps:
+        if s_[0] == '[':
+            out.append(['[', twin_lit(s_[1])])
+        elif s_[0] == 'bin':
+            out.append(['bin', s_[1], twin_lit(s_[2])])
+        else:
+            out.append(s_)
+    return out
+
+
 def check(recipe, ctx):
     steps = recipe['steps']
+    if recipe.get('twin_first'):
+        # an expression recorded earlier in the same process, with literals that are EQUAL to this one's but of another
+        # type (T['xs'][1] vs T['xs'][1.0]): recording is per expression, nothing may be shared between the two
+        tw = twin_steps(steps)
+        if tw != steps:
+            ctx.label('twin-recorded-first')
+            try:
+                tx.build_t('T', tw, make_target(recipe['target'])[0])
+            except Exception:
+                pass
     # reference on its own copy of the target (echo logs are per target)
     rt, recho = make_target(recipe['target'])
     nested_fail = None
@@ -439,5 +474,5 @@ def check(recipe, ctx):
 
 SUBS = [
     Sub('replay', check, gen=gen, quick=8000, thorough=20000,
-        floors={'exp-ok': 0.2, 'exp-err': 0.15, 'nested-T-arg': 0.05, 'nested-arg-after-failure': 0.05, 'fail-in-nested-arg': 0.01, 'op//': 0.02, 'fail-at-k>=1': 0.1}),
+        floors={'exp-ok': 0.15, 'exp-err': 0.15, 'nested-T-arg': 0.05, 'nested-arg-after-failure': 0.05, 'fail-in-nested-arg': 0.01, 'op//': 0.02, 'fail-at-k>=1': 0.1, 'twin-recorded-first': 0.06}),
 ]
